@@ -104,6 +104,9 @@ def run(ch, params, decoded=False):
     stats = {"mode=" + mode: 1}
     R.run_prefix_ops(prefix, w, stats)
     exp = ref.run_model(prog)
+    _skip = R.skipped_if_too_big(exp)
+    if _skip is not None:
+        return _skip
     model = exp["model"]
     classes = emit.build_classes(prog)
     if flip:
